@@ -196,8 +196,12 @@ def sample_sentence(rng, g, maxlen, ml=None, allow_error=False):
         return sum(1 if s in tn else ml.get(s, INF) for s in rhs)
 
     out = []
+    steps = [0]
 
     def go(sym, budget, depth):
+        steps[0] += 1
+        if steps[0] > 3000:
+            return False
         if sym in tn:
             if sym == "error" and not allow_error:
                 return False
